@@ -304,7 +304,8 @@ def key(f: BF) -> str:
     if len(names) > MAX_ATOMS:
         return "BIG:" + repr(f)
     rel = relevant_atoms(f)
-    tab = _table(f, rel)
+    irrelevant = {a: False for a in names if a not in rel}
+    tab = tuple(evaluate(f, {**irrelevant, **dict(zip(rel, vals))}) for vals in itertools.product((False, True), repeat=len(rel)))
     if not rel:
         return "TRUE" if tab[0] else "FALSE"
     return describe_table(rel, tab)
